@@ -5,6 +5,7 @@ request : trace <H|N|S|G> <nfiles> [c<k>|-] <layer>,<layer>,…
           op    = k (file untouched) | d (whiteout) | w<digits> (file rewritten with these packages, in this order;
                   a digit d in 1..8 is the package p<(d-1)%4+1> at version (d-1)/4+1: ids d and d+4 share their name)
                 | s<digits> (location replaced by a symlink to a list with these packages)
+                | t<digits> (the location is a symlink: this layer rewrites the link's TARGET, not the link)
                 | a<n> / r<n> (the directory n levels above the file — the files sit up to three directories deep
                   — is deleted by a whiteout / replaced by a regular file; every file below goes)
           c<k>  = the context is cancelled once the trace has made k re-extractions; c0 = a detector cancels it after the
@@ -28,7 +29,7 @@ open Scalibr Scalibr.Trace Scalibr.Wire
 
 /-- an op as written in the case: an op on the file itself, or `a<n>` / `r<n>`: the directory `n` levels
 above the file is deleted (whiteout) / replaced by a regular file -/
-inductive ROp | own (o : Op) | anc (n : Nat)
+inductive ROp | own (o : Op) | anc (n : Nat) | retarget (ps : List Pkg)
 
 def parseOp (s : String) : Option ROp :=
   if s = "k" then some (.own .keep)
@@ -36,6 +37,7 @@ def parseOp (s : String) : Option ROp :=
   else match s.toList with
     | 'w' :: ds => (ds.mapM fun (c : Char) => if c.isDigit then some (c.toNat - 48) else none).map (ROp.own ∘ Op.write)
     | 's' :: ds => (ds.mapM fun (c : Char) => if c.isDigit then some (c.toNat - 48) else none).map (ROp.own ∘ Op.link)
+    | 't' :: ds => (ds.mapM fun (c : Char) => if c.isDigit then some (c.toNat - 48) else none).map ROp.retarget
     | ['a', d] => if '1' ≤ d ∧ d ≤ '9' then some (.anc (d.toNat - 48)) else none
     | ['r', d] => if '1' ≤ d ∧ d ≤ '9' then some (.anc (d.toNat - 48)) else none
     | _ => none
@@ -53,7 +55,7 @@ def ancestorDir (f n : Nat) : Option (List String) :=
 /-- What a layer does to each file, as the OCI rule reads the tar: a deleted or replaced directory takes
 every file below it along. `none`: the case is not well formed (no such ancestor, or a file re-created in
 the very layer that deletes a directory above it — the result would depend on the tar order, C04's matter). -/
-def effective (ops : List ROp) : Option (List Op) :=
+def effective (ops : List ROp) : Option (List (Op × Bool)) :=
   let gone : List (List String) := (List.range ops.length).filterMap fun g =>
     match ops[g]? with
     | some (ROp.anc n) => ancestorDir g n
@@ -65,14 +67,19 @@ def effective (ops : List ROp) : Option (List Op) :=
   if !wf then none else
   (List.range ops.length).mapM fun f =>
     let hit := gone.any fun d => d.isPrefixOf (fileDir f)
+    -- second component: does the layer's own diff have an entry AT the location (what filesExistInLayer sees)?
     match ops[f]? with
     | some (ROp.own o) =>
-      if hit then (match o with | Op.keep => some Op.delete | Op.delete => some Op.delete | _ => none) else some o
-    | some (ROp.anc _) => some Op.delete
+      if hit then (match o with | Op.keep => some (Op.delete, false) | Op.delete => some (Op.delete, false) | _ => none)
+      else some (o, match o with | Op.write _ => true | Op.link _ => true | _ => false)
+    | some (ROp.anc _) => some (Op.delete, false)
+    -- t<digits>: the location is a symlink and this layer rewrites its TARGET: the view at the location changes, the
+    -- layer's diff has nothing at the location
+    | some (ROp.retarget ps) => if hit then none else some (Op.link ps, false)
     | none => none
 
 /-- a layer: none = empty history entry, some ops = one op per file -/
-def parseLayer (nf : Nat) (s : String) : Option (Option (List Op)) :=
+def parseLayer (nf : Nat) (s : String) : Option (Option (List (Op × Bool))) :=
   if s = "E" then some none
   else match s.splitOn "/" with
     | "L" :: ops => if ops.length = nf then ((ops.mapM parseOp).bind effective).map some else none
@@ -111,7 +118,7 @@ def run (mode0 : String) (nf : Nat) (cancelAt : Option Nat) (ls : String) : Stri
           ⟨(layers.getD i none).isNone, s!"cmd{i}"⟩
         let hist := if mode = "H" then full else if mode = "N" then []
           else if mode = "G" then full ++ [⟨false, "ghost"⟩] else full.dropLast
-        let v1 : List (List Op) := layers.filterMap id
+        let v1 : List (List (Op × Bool)) := layers.filterMap id
         match initChain v1.length hist with
         | none => "loaderr"
         | some cms =>
@@ -120,11 +127,15 @@ def run (mode0 : String) (nf : Nat) (cancelAt : Option Nat) (ls : String) : Stri
           -- the model's "file" is the trace's cache key (location, extractor): with a second extractor reading the same
           -- files (mode letter x) the ids nf … 2nf-1 are the same locations as seen by that extractor
           let two := mode0.toList.contains 'x'
-          let img : Nat → History := fun f => chainHistory cms (v1.map fun ops => ops.getD (f % nf) .keep)
+          let img : Nat → History := fun f => chainHistory cms (v1.map fun ops => (ops.getD (f % nf) (.keep, false)).1)
+          let diff : Nat → Nat → Bool := fun f i =>
+            match (cms[i]?).bind (·.layer) with
+            | some k => ((v1.getD k []).getD (f % nf) (.keep, false)).2
+            | none => false
           let pkgs : List (Nat × Pkg) := isort (pkgLt nf) ((List.range (if two then 2 * nf else nf)).flatMap fun f =>
             ((viewAt (img f) (n - 1)).getD []).map fun p => (f, p))
           let tag (f : Nat) : String := if f < nf then s!"f{f}" else s!"g{f - nf}"
-          let origins := populate img cancelAt pkgs St.empty
+          let origins := populate img diff cancelAt pkgs St.empty
           let toks := (pkgs.zip origins).map fun ((f, p), o) =>
             match o with
             | none => s!"{tag f}p{p}@nil"
@@ -165,7 +176,7 @@ def handle (line : String) : String :=
   | _ => "bad-op"
 
 /-- the `sizes` stream (verdict: C10): `sz <limit> <maxinodes> <op>,…` with op = E | k | d | w<bytes>.
-reply: sizes=<bytes handed to each Extract call, in call order> bound=<limit | -> : the model's prediction and
+reply: sizes=<bytes handed to each Extract call, in call order> runs=<inode visits of the trace's re-runs> bound=<limit | -> : the model's prediction and
 the specification's bound (every size handed to an extractor is at most the limit, when one is set) -/
 def handleSizes (limit : Nat) (ops : String) : String :=
   let parse (s : String) : Option TraceSize.SOp :=
@@ -179,7 +190,7 @@ def handleSizes (limit : Nat) (ops : String) : String :=
   | some h =>
     if h.isEmpty then "scanerr" else
     let sizes := TraceSize.handed limit h
-    s!"sizes={joinWith "." (sizes.map toString)} bound={if limit = 0 then "-" else toString limit}"
+    s!"sizes={joinWith "." (sizes.map toString)} runs={TraceSize.traceInodes limit h} bound={if limit = 0 then "-" else toString limit}"
 
 def handleAll (line : String) : String :=
   match line.splitOn " " with
